@@ -99,6 +99,8 @@ func (dht *FullRT) runCrawler(ctx context.Context)
   ghostvar $crawlNo int = 0
   modifies *
   ghost at call(Run): $crawlNo = $crawlNo + 1
+  # every crawl starts from an EMPTY found set: the table installed afterwards holds only peers this crawl reported
+  ghost at before call(Run): assert(len(foundPeers) == 0)
   ghost at assign(dht.peerAddrs): assert(heldw(dht.rtLk) && heldw(dht.kMapLk) && heldw(dht.peerAddrsLk)); dht.$paGen = $crawlNo
   ghost at assign(dht.keyToPeerMap): assert(heldw(dht.rtLk) && heldw(dht.kMapLk) && heldw(dht.peerAddrsLk)); dht.$kmGen = $crawlNo
   ghost at assign(dht.rt): assert(heldw(dht.rtLk) && heldw(dht.kMapLk) && heldw(dht.peerAddrsLk)); dht.$rtGen = $crawlNo
